@@ -285,39 +285,22 @@ where
     let virtual_ms = if !migrates {
         rt.block_on(main)
     } else {
-        // phases: each one polls the run's top-level future on a fresh OS thread until a client
-        // asks for the next migration; strictly one thread at a time, so still deterministic
-        let mut main = Box::pin(main);
-        let mut carried = world::take_world();
-        let mut done: Option<u64> = None;
-        let mut phases = 0u64;
-        while done.is_none() {
-            phases += 1;
-            std::thread::scope(|s| {
-                let _ = s.spawn(|| {
-                    world::set_world(carried.take().expect("world"));
-                    let r = rt.block_on(std::future::poll_fn(|cx| {
-                        world::set_main_waker(cx.waker().clone());
-                        match main.as_mut().poll(cx) {
-                            std::task::Poll::Ready(v) => std::task::Poll::Ready(Some(v)),
-                            std::task::Poll::Pending => {
-                                if world::take_migration_request() {
-                                    std::task::Poll::Ready(None)
-                                } else {
-                                    std::task::Poll::Pending
-                                }
-                            }
-                        }
-                    }));
-                    carried = world::take_world();
-                    done = r;
-                });
-            });
-        }
-        let mut wd = carried.expect("world");
+        // phases alternate between two helper OS threads (simcore::phased); the thread-local
+        // harness world travels with the run
+        let ctl = world::w(|w| w.migrate.clone());
+        let carried = std::sync::Mutex::new(world::take_world());
+        let (ms, phases) = simcore::phased::run_alternating(
+            Box::pin(main),
+            &|f| rt.block_on(f),
+            &ctl.0,
+            &ctl.1,
+            &|| world::set_world(carried.lock().unwrap().take().expect("world")),
+            &|| *carried.lock().unwrap() = world::take_world(),
+        );
+        let mut wd = carried.into_inner().unwrap().expect("world");
         *wd.faults.entry("os_thread_migration".into()).or_insert(0) += phases - 1;
         world::set_world(wd);
-        done.unwrap()
+        ms
     };
     drop(rt);
     let world = world::take_world().expect("world");
